@@ -11,7 +11,7 @@ R07.2 every output store of opus_repacketizer_out_range_impl is dominated by a
 R07.3 pad/unpad wrappers: length guards, copy-before-cat (in-place safety).
 R07.4 errors of the repacketizer / parser / extension callees are not dropped.
 """
-from .. import sx, cfg as cfgm, guards, templates as T, absint
+from .. import sx, cfg as cfgm, guards, templates as T, absint, decide
 from ..guards import I
 from ..compdb import AnalysisBroken
 
@@ -33,6 +33,8 @@ def setup(rep, tier):
     rep.minimum('R07.2', 20)
     rep.minimum('R07.3', 6)
     rep.minimum('R07.4', 12)
+    rep.minimum('R07.5', 2)
+    rep.minimum('R07.6', 2)
 
 
 def rooted_at_param(f, lv, pidx):
@@ -290,7 +292,32 @@ def r07_3(rep, prog):
         cf = cfgm.CFG(f)
         ln = ('param', f.param_index('len'))
         sinks = T.calls_to(cf, ('opus_packet_parse_impl',))
-        T.t_guard(rep, 'R07.3', f, cf, sinks[:1], [('len>=1', ('<=', I(1), ln))], 'first parse')
+        if sinks:
+            T.t_guard(rep, 'R07.3', f, cf, sinks[:1], [('len>=1', ('<=', I(1), ln))], 'first parse')
+        # the input cursor advances by the parsed size of the sub-packet: `data += X; len -= X`
+        # with X the packet_offset out-parameter of a dominating opus_packet_parse_impl(data, len, ...)
+        pd = f.param_index('data')
+        adv = [(b, i, n) for b, i, n in cf.find(lambda n: n[0] == 'cassign' and n[1] == '+' and sx.key(sx.strip(n[2])) == ('param', pd))]
+        dec = [(b, i, n) for b, i, n in cf.find(lambda n: n[0] == 'cassign' and n[1] == '-' and sx.key(sx.strip(n[2])) == ln)]
+        inst = '%s:%s advances the input by the parsed sub-packet size' % (prog.config, fname)
+        if len(adv) != 1 or len(dec) != 1:
+            rep.unresolved('R07.3', '%s: expected one `data += ..` and one `len -= ..` (found %d, %d)' % (fname, len(adv), len(dec)), f.where())
+            continue
+        ab, ai, an = adv[0]
+        step = sx.strip(an[3])
+        where = '%s:%s' % (f.file, sx.line(an))
+        okp = False
+        why = 'step `%s` is not the packet_offset written by opus_packet_parse_impl' % sx.show(step)
+        if sx.kind(step) == 'local' and sx.key(sx.strip(dec[0][2][3])) == sx.key(step):
+            for b, i, c in sinks:
+                args = c[2]
+                outp = [j for j, a in enumerate(args) if sx.kind(sx.strip(a)) == 'addr' and sx.key(sx.strip(sx.strip(a)[1])) == sx.key(step)]
+                if outp == [7] and sx.key(sx.strip(args[0])) == ('param', pd) and sx.key(sx.strip(args[1])) == ln and cf.pos_dominates((b, i), (ab, ai)):
+                    okp = True
+                    why = 'packet_offset of the dominating parse of (data, len)'
+        elif sx.kind(step) == 'local':
+            why = '`data += %s` but `len -= %s`' % (sx.show(step), sx.show(dec[0][2][3]))
+        (rep.holds if okp else rep.violated)('R07.3', inst, where, why, **({} if okp else {'key': '%s:advance' % fname}))
 
 
 ERR_CALLEES = {'opus_repacketizer_cat', 'opus_repacketizer_cat_impl', 'opus_repacketizer_out_range_impl', 'opus_packet_parse_impl',
@@ -313,7 +340,134 @@ def r07_4(rep, prog):
         rep.unresolved('R07.4', 'only %d error-returning call sites found' % n)
 
 
+PAD_DOMAIN = 70000      # > 254*255 = 64770: one full period of both divisors
+
+
+def r07_5(rep, prog):
+    """padding arithmetic of opus_repacketizer_out_range_impl, over the whole
+    value range of the extension length (value-set analysis partitioned per
+    value; the expressions are taken from the source): the padding amount
+    chosen for ext_len bytes of extensions leaves a non-negative 0x01 filler
+    region that ends exactly where the extensions begin, and the length bytes
+    written (nb_255s times 255, then the remainder) describe exactly
+    pad_amount bytes with a final byte below 255."""
+    f = prog.fn('opus_repacketizer_out_range_impl')
+    rep.functions.add(f.name)
+    is_l = lambda name: (lambda x: sx.kind(x) == 'local' and x[1] == name)
+    is_p = lambda name: (lambda x: sx.kind(x) == 'param' and x[2] == name)
+    pa = decide.find_assign(f, 'pad_amount', lambda e: decide.mentions(e, is_l('ext_len')) and not decide.mentions(e, is_p('maxlen')))
+    nb = decide.find_assign(f, 'nb_255s')
+    ob = decide.find_assign(f, 'ones_begin', lambda e: sx.int_val(e) is None)
+    oe = decide.find_assign(f, 'ones_end', lambda e: sx.int_val(e) is None)
+    eb = decide.find_assign(f, 'ext_begin', lambda e: sx.int_val(e) is None)
+    last = [n for n in f.all_nodes() if n[0] == 'assign' and sx.kind(sx.strip_paren(n[1])) == 'deref'
+            and decide.mentions(n[2], is_l('pad_amount')) and decide.mentions(n[2], is_l('nb_255s'))]
+    if not (len(pa) == len(nb) == len(ob) == len(oe) == len(eb) == len(last) == 1):
+        rep.unresolved('R07.5', 'padding expressions not found (pad_amount %d nb_255s %d ones_begin %d ones_end %d ext_begin %d last byte %d)' %
+                       (len(pa), len(nb), len(ob), len(oe), len(eb), len(last)), f.where())
+        return
+    K = lambda name: next(sx.key(lv) for lv, e in (pa + nb + ob + oe + eb) if lv[1] == name)
+    kext = next((sx.key(x) for x in sx.walk(pa[0][1]) if is_l('ext_len')(x)), None)
+    ktot = next((sx.key(x) for x in sx.walk(ob[0][1]) if is_l('tot_size')(x)), None)
+    if kext is None or ktot is None:
+        rep.unresolved('R07.5', 'ext_len / tot_size not found in the padding expressions', f.where())
+        return
+    where = '%s:%s' % (f.file, sx.line(pa[0][1]) or f.line)
+
+    def layout(P, ext, tot):
+        v = {K('pad_amount'): P, kext: ext, ktot: tot}
+        n255 = decide.ev3(nb[0][1], v)
+        if n255 is None:
+            return None
+        v[K('nb_255s')] = n255
+        b, e, x, l = (decide.ev3(t, v) for t in (ob[0][1], oe[0][1], eb[0][1], last[0][2]))
+        if None in (b, e, x, l):
+            return None
+        return n255, b, e, x, l
+
+    bad = None
+    for ext in range(0, PAD_DOMAIN):
+        P = decide.ev3(pa[0][1], {kext: ext})
+        r = layout(P, ext, 9) if P is not None else None
+        if r is None:
+            rep.unresolved('R07.5', 'cannot evaluate the padding expressions for ext_len=%d' % ext, where)
+            return
+        n255, b, e, x, l = r
+        if not (P >= 1 and e - b >= 0 and x == e and 0 <= l <= 254 and 255 * n255 + 1 + l == P and P - (n255 + 1) >= ext):
+            bad = (ext, P, n255, b - 9, e - 9, x - 9, l)
+            break
+    inst = '%s:padding chosen for the extensions leaves a well-formed filler region (no-pad case)' % prog.config
+    if bad:
+        rep.violated('R07.5', inst, where, 'ext_len=%d: pad_amount `%s` = %d, nb_255s=%d, 0x01 filler [%d,%d) , extensions at %d, last length byte %d - the extensions overlap the length bytes / frame data' %
+                     ((bad[0], sx.show(pa[0][1])) + bad[1:]), key='pad-amount')
+    else:
+        rep.holds('R07.5', inst, where, 'ext_len in [0,%d): filler length >= 0, ext_begin = ones_end, last length byte in [0,254], 255*nb+1+last = pad_amount' % PAD_DOMAIN, n=PAD_DOMAIN)
+    bad = None
+    for P in range(1, PAD_DOMAIN):
+        r = layout(P, 0, 9)
+        if r is None:
+            rep.unresolved('R07.5', 'cannot evaluate the padding length bytes for pad_amount=%d' % P, where)
+            return
+        n255, b, e, x, l = r
+        if not (0 <= l <= 254 and 255 * n255 + 1 + l == P):
+            bad = (P, n255, l)
+            break
+    inst = '%s:padding length bytes describe exactly pad_amount bytes (pad case)' % prog.config
+    if bad:
+        rep.violated('R07.5', inst, '%s:%s' % (f.file, sx.line(last[0])), 'pad_amount=%d: nb_255s=%d, last byte %d' % bad, key='pad-length-bytes')
+    else:
+        rep.holds('R07.5', inst, '%s:%s' % (f.file, sx.line(last[0])), 'pad_amount in [1,%d)' % PAD_DOMAIN, n=PAD_DOMAIN)
+
+
+def r07_6(rep, prog):
+    """range-relative indexing: inside out_range_impl the frame table of the
+    repacketizer is addressed only through the begin-shifted views
+    (len = rp->len+begin, frames = rp->frames+begin); a direct rp->len[..] /
+    rp->frames[..] would index from frame 0 instead of `begin`"""
+    f = prog.fn('opus_repacketizer_out_range_impl')
+    cf = cfgm.CFG(f)
+    pb = f.param_index('begin')
+    nviews = 0
+    for fld in ('len', 'frames', 'paddings', 'padding_len'):
+        uses = [(b, i, n) for b, i, n in cf.find(lambda n: sx.kind(n) == 'field' and n[2] == 'OpusRepacketizer' and n[3] == fld)]
+        if not uses:
+            continue
+        # statements that use the field: must be `local = rp->fld + begin` or an index rp->fld[begin+..]/[i] with i ranging from begin
+        for b, i, n in uses:
+            stmt = cf.f.block_exprs(cf.blocks[b])[i]
+            where = '%s:%s' % (f.file, sx.line(stmt) if isinstance(stmt, list) else f.line)
+            inst = '%s:out_range_impl uses rp->%s relative to begin (`%s`)' % (prog.config, fld, sx.show(stmt)[:50])
+            ok = False
+            for m in sx.walk(stmt):
+                if m[0] in ('assign',) and sx.kind(m[1]) == 'local':
+                    r = sx.strip(m[2])
+                    if sx.kind(r) == 'bin' and r[1] == '+' and sx.A(r).get('ptr') and \
+                            {sx.key(sx.strip(r[2])), sx.key(sx.strip(r[3]))} == {sx.key(n), ('param', pb)}:
+                        ok = True
+                if m[0] == 'idx' and sx.key(sx.strip(m[1])) == sx.key(n):
+                    ix = sx.strip(m[2])
+                    if any(sx.key(x) == ('param', pb) for x in sx.walk(ix)):
+                        ok = True
+                    elif sx.kind(ix) == 'local':
+                        # loop variable whose (latest dominating) initialisation is `begin`
+                        defs = [(b2, i2, a) for b2, i2, a in cf.find(lambda a: a[0] == 'assign' and sx.key(a[1]) == sx.key(ix))
+                                if cf.pos_dominates((b2, i2), (b, i)) and (b2, i2) != (b, i)]
+                        last = [d for d in defs if all(cf.pos_dominates((o[0], o[1]), (d[0], d[1])) for o in defs)]
+                        if last and sx.key(sx.strip(last[0][2][2])) == ('param', pb):
+                            ok = True
+            if ok:
+                nviews += 1
+                rep.holds('R07.6', inst, where, 'offset by begin')
+            else:
+                rep.violated('R07.6', inst, where, 'rp->%s is indexed from frame 0, not from `begin`: for begin>0 the decision is taken on frames outside the requested range' % fld,
+                             key='abs-index:%s' % fld)
+    if nviews < 2:
+        rep.unresolved('R07.6', 'begin-shifted views of rp->len / rp->frames not found')
+
+
 def check(rep, prog, tier):
+    r07_5(rep, prog)
+    r07_6(rep, prog)
     r07_1(rep, prog)
     r07_2(rep, prog)
     r07_3(rep, prog)
